@@ -119,13 +119,15 @@ static void draw_out_overheads(br_ssl_engine_context *cc)
 	stub_out.head = h; stub_out.tail = t;
 }
 
-/* the in/out vtable pointers are set by the static initialiser: assigning a
-   member of these (large) unions at run time costs minutes of symex */
+/* The context is a LOCAL object of main (unconstrained under CBMC): a zeroed
+   static br_ssl_engine_context costs CBMC minutes of constant propagation
+   through its unions (measured: 390 s static vs 0.2 s local).  Every field the
+   engine code reads in these steps is then set explicitly by arbitrary_state();
+   natively the object is zeroed first. */
 static const br_sslrec_in_class stub_in_vtable;
 static const br_sslrec_out_class stub_out_vtable;
-static br_ssl_engine_context cc_ = { .in = { .vtable = &stub_in_vtable }, .out = { .vtable = &stub_out_vtable } };
-#define cc cc_
-#undef cc
+static br_ssl_engine_context *ccp;
+#define cc_ (*ccp)
 
 static void stub_hsrun(void *t0ctx)
 {
@@ -143,7 +145,7 @@ static void stub_hsrun(void *t0ctx)
 	/* consume some input */
 	size_t cin = ND_SIZE();
 	ASSUME(cin <= cc->hlen_in);
-	cc->hbuf_in += cin; cc->hlen_in -= cin; hs_consumed += cin;
+	if (cin > 0) { cc->hbuf_in += cin; cc->hlen_in -= cin; hs_consumed += cin; }
 	/* produce some output; the coroutine never leaves an unfinished record (ssl_engine.c comment in jump_handshake) */
 	if (ND_U8() & 1) {
 		size_t cout = ND_SIZE();
@@ -151,7 +153,7 @@ static void stub_hsrun(void *t0ctx)
 		if (cout > 0 && !br_ssl_engine_has_pld_to_send(cc)) {
 			cc->record_type_out = ND_U8();   /* wait-rectype-out sets the type only on an empty output buffer */
 		}
-		cc->hbuf_out += cout; cc->hlen_out -= cout; hs_produced += cout;
+		if (cout > 0) { cc->hbuf_out += cout; cc->hlen_out -= cout; hs_produced += cout; }
 		br_ssl_engine_flush_record(cc);
 		if (cc->oxa == cc->oxb) draw_out_overheads(cc);   /* switch-encryption (out) right after flush-record */
 	}
@@ -247,6 +249,9 @@ static void arbitrary_state(void)
 	cc.max_frag_len = ND_SIZE();
 	cc.reneg = ND_U8(); cc.flags = ND_U32();
 	cc.hsrun = stub_hsrun;
+	cc.in.vtable = &stub_in_vtable;
+	cc.out.vtable = &stub_out_vtable;
+	cc.hbuf_in = NULL; cc.hbuf_out = NULL; cc.saved_hbuf_out = NULL; cc.hlen_in = 0; cc.hlen_out = 0; cc.action = 0;
 	{
 		stub_out.head = ND_SIZE(); stub_out.tail = ND_SIZE();
 		stub_in.cl_min = ND_SIZE(); stub_in.cl_max = ND_SIZE();
@@ -298,6 +303,11 @@ static void post_checks(int was_closed, int old_err)
 
 int main(void)
 {
+	br_ssl_engine_context the_context;
+#ifdef NATIVE_REPLAY
+	memset(&the_context, 0, sizeof the_context);
+#endif
+	ccp = &the_context;
 #if OP == OP_BASE
 	{
 		size_t blen = ND_SIZE();
@@ -349,7 +359,10 @@ int main(void)
 	CHECK(region_ok(b, len, IBUF, ILEN), "offered recvrec region is non-empty and inside ibuf");
 	n = ND_SIZE();
 	ASSUME(n >= 1 && n <= len);
-	for (size_t i = 0; i < 5; i++) if (b + i < IBUF + 5 && i < n) b[i] = ND_U8();   /* transport writes header bytes */
+	{
+		size_t boff = (size_t)(b - IBUF);
+		for (size_t i = 0; i < 5; i++) if (boff + i < 5 && i < n) IBUF[boff + i] = ND_U8();   /* transport writes header bytes */
+	}
 	size_t pre_ixa = cc.ixa, pre_ixc = cc.ixc;
 	int pre_incrypt = cc.incrypt;
 	unsigned char pre_ad = cc.application_data;
@@ -470,8 +483,10 @@ int main(void)
 		WITNESS_POINT("new max frag len");
 	}
 #endif
+#if OP != OP_CLOSED_ANY
 	post_checks(was_closed, old_err);
 	WITNESS_POINT("step done");
+#endif
 	return 0;
 #endif
 }
